@@ -977,6 +977,11 @@ def solve(objfun, x0, h=None, lh=None, prox_uh=None, argsf=(), argsh=(), argspro
         xl = -1e20 * np.ones((n,))  # unconstrained
     if xu is None:
         xu = 1e20 * np.ones((n,))  # unconstrained
+    if bounds is not None:
+        # Evaluation points are formed as xbase + step (then un-scaled if scaling is used), which can land one rounding
+        # error outside the box: always clip to the user's bounds, in the user's coordinates, just before calling objfun
+        xl_user, xu_user, objfun_user = xl.copy(), xu.copy(), objfun
+        objfun = lambda x, *args: objfun_user(np.minimum(np.maximum(x, xl_user), xu_user), *args)
     if npt is None:
         npt = n + 1
     if rhobeg is None:
@@ -1177,7 +1182,10 @@ def solve(objfun, x0, h=None, lh=None, prox_uh=None, argsf=(), argsh=(), argspro
     if scaling_changes is not None and jacmin is not None:
         for i in range(n):
             jacmin[:, i] = jacmin[:, i] / scaling_changes[1][i]
-    results = OptimResults(remove_scaling(xmin, scaling_changes), rmin, objmin, jacmin, nf, nx, nruns, exit_flag, exit_msg, xmin_eval_num, jacmin_eval_nums)
+    xmin = remove_scaling(xmin, scaling_changes)
+    if bounds is not None:
+        xmin = np.minimum(np.maximum(xmin, xl_user), xu_user)  # same clipping as the evaluation points
+    results = OptimResults(xmin, rmin, objmin, jacmin, nf, nx, nruns, exit_flag, exit_msg, xmin_eval_num, jacmin_eval_nums)
     if params("logging.save_diagnostic_info"):
         df = diagnostic_info.to_dataframe(with_xk=params("logging.save_xk"), with_rk=params("logging.save_rk"))
         results.diagnostic_info = df
